@@ -53,6 +53,7 @@ fn process_retracted(
                 .remove_prefill_task(task_id);
         }
         for (worker_id, task_ids) in to_workers {
+            worker_map.get_worker_mut(worker_id).retraction_sent();
             comm.send_worker_message(
                 worker_id,
                 &ToWorkerMessage::RetractTasks(TaskIdsMsg { ids: task_ids }),
@@ -488,9 +489,11 @@ pub(crate) fn on_retract_response(
 ) {
     let CoreSplitMut {
         task_map,
+        worker_map,
         scheduler_state,
         ..
     } = core.split_mut();
+    worker_map.get_worker_mut(worker_id).retraction_answered();
     let mut to_workers: Map<WorkerId, Vec<(TaskId, ResourceVariantId)>> = Map::new();
     for task_id in task_ids {
         // The task may have been canceled or failed while the retraction was in flight
